@@ -11,6 +11,7 @@ import EpsModel.Cursor
 import EpsModel.Iter
 import EpsModel.Loaders
 import EpsModel.XXH3
+import EpsModel.Alloc
 open Eps
 
 structure St where
@@ -330,7 +331,12 @@ def step (st : St) (line : String) : St × Option String :=
       | some t, some r, some v =>
         if !t.wt v then (st, some "illtyped") else
         let s := t.ser H (st.names.getD i.toNat! []) v
-        (st, some ("alloc * * | E " ++ showRes (fun (x : EVal × Nat) => showEVal x.1) (t.deEps H r s)))
+        -- the number of allocator calls is bounded by the model's count (`C03.epsAllocs`: one per non-empty rebuilt
+        -- sequence and per non-empty string / sequence of a fully copied field); the number of bytes is not modelled
+        let res := t.deEps H r s
+        -- (+ 2: `check_header` builds the type name of `Self` and reads the one in the header, two strings)
+        let bound := match res with | .ok (e, _) => "<=" ++ toString (2 + C03.epsAllocs e) | _ => "*"
+        (st, some ("alloc " ++ bound ++ " * | E " ++ showRes (fun (x : EVal × Nat) => showEVal x.1) res))
       | _, _, _ => (st, some "badval")
   | ["wfail", i, spec, val] =>
       match i.toNat?.bind (st.types[·]?), parseVal val with
